@@ -71,6 +71,30 @@ def pymods(pp, ms):
     return [Mod(anngen.pyval(m["v"]), m["m"]) for m in ms]
 
 
+def raw_ok(ms):
+    return all(m["m"] == 1 for m in ms)
+
+
+def shaped_mods(pp, ms, shape):
+    """A static rule's modifications in one of the documented input shapes: Mod objects, or (multipliers 1) the bare
+    values - a scalar for one modification, a flat list otherwise."""
+    if shape == "raw" and raw_ok(ms):
+        vals = [anngen.pyval(m["v"]) for m in ms]
+        return vals[0] if len(vals) == 1 else vals
+    return pymods(pp, ms)
+
+
+def shaped_groups(pp, groups, shape):
+    """A variable rule's alternative groups: nested lists of Mod objects, or (multipliers 1) bare values - for a single
+    group the flat-list shorthand ['phospho', 0.98], otherwise a list of lists."""
+    if shape == "raw" and all(raw_ok(g) for g in groups):
+        vals = [[anngen.pyval(m["v"]) for m in g] for g in groups]
+        if len(vals) == 1:
+            return vals[0] if len(vals[0]) > 1 else vals[0][0]
+        return vals
+    return [pymods(pp, g) for g in groups]
+
+
 def distinct_keys(rules, keyf):
     seen, out = set(), []
     for r in rules:
@@ -88,14 +112,14 @@ def gen_A(rnd):
     return A
 
 
-def static_event(pp, tid, A, irules, nrules, crules, mode, rt, via):
+def static_event(pp, tid, A, irules, nrules, crules, mode, rt, via, shape="mods"):
     a = anngen.build(pp, A)
     src = anngen.render(A) if via == "str" else a
 
     def kw():
-        return dict(internal_mods={regex_of(r): pymods(pp, r["mods"]) for r in irules},
-                    nterm_mods={term_key(r): pymods(pp, r["mods"]) for r in nrules} or None,
-                    cterm_mods={term_key(r): pymods(pp, r["mods"]) for r in crules} or None, mode=mode, return_type=rt)
+        return dict(internal_mods={regex_of(r): shaped_mods(pp, r["mods"], shape) for r in irules},
+                    nterm_mods={term_key(r): shaped_mods(pp, r["mods"], shape) for r in nrules} or None,
+                    cterm_mods={term_key(r): shaped_mods(pp, r["mods"], shape) for r in crules} or None, mode=mode, return_type=rt)
 
     def f():
         r1 = pp.apply_static_mods(src, **kw())
@@ -105,23 +129,23 @@ def static_event(pp, tid, A, irules, nrules, crules, mode, rt, via):
     o, r = call(f)
     blank = anngen.empty("")
     return {"tid": tid, "k": "static", "A": A, "irules": irules, "nrules": nrules, "crules": crules, "mode": mode, "rt": rt,
-            "via": via, "out": o, "res": r[0] if o == "ret" else blank, "twice": r[1] if o == "ret" else blank,
+            "via": via, "shape": shape, "out": o, "res": r[0] if o == "ret" else blank, "twice": r[1] if o == "ret" else blank,
             "argAfter": project.ann(a)}
 
 
-def variable_event(pp, tid, A, irules, nrules, crules, max_mods, mode, rt, via):
+def variable_event(pp, tid, A, irules, nrules, crules, max_mods, mode, rt, via, shape="mods"):
     a = anngen.build(pp, A)
     src = anngen.render(A) if via == "str" else a
 
     def f():
-        res = pp.apply_variable_mods(src, {regex_of(r): [pymods(pp, g) for g in r["groups"]] for r in irules}, max_mods,
-                                     nterm_mods={term_key(r): [pymods(pp, g) for g in r["groups"]] for r in nrules} or None,
-                                     cterm_mods={term_key(r): [pymods(pp, g) for g in r["groups"]] for r in crules} or None,
+        res = pp.apply_variable_mods(src, {regex_of(r): shaped_groups(pp, r["groups"], shape) for r in irules}, max_mods,
+                                     nterm_mods={term_key(r): shaped_groups(pp, r["groups"], shape) for r in nrules} or None,
+                                     cterm_mods={term_key(r): shaped_groups(pp, r["groups"], shape) for r in crules} or None,
                                      mode=mode, return_type=rt)
         return [project.ann(pp.parse(x) if isinstance(x, str) else x) for x in res]
     o, r = call(f)
     return {"tid": tid, "k": "variable", "A": A, "irules": irules, "nrules": nrules, "crules": crules, "maxMods": max_mods,
-            "mode": mode, "rt": rt, "via": via, "out": o, "res": r if o == "ret" else []}
+            "mode": mode, "rt": rt, "via": via, "shape": shape, "out": o, "res": r if o == "ret" else []}
 
 
 def run(tier, seed, rep):
@@ -142,10 +166,22 @@ def run(tier, seed, rep):
         mode = rnd.choice(["skip", "skip", "append", "overwrite"])
         rt = rnd.choice(["str", "annotation"])
         via = rnd.choice(["str", "ann"])
+        shape = rnd.choice(["mods", "raw"])
         if variable:
-            evs.append(variable_event(pp, f"v{i}", A, irules, nrules, crules, rnd.choice([0, 1, 1, 2, 3, 4]), mode, rt, via))
+            import copy as _copy
+            c_ = rnd.random()
+            if c_ < 0.15 and len(irules) >= 2:
+                # the same group offered by two rules (it is one offered group: each form still comes once)
+                irules[1]["groups"][0] = _copy.deepcopy(irules[0]["groups"][0])
+            elif c_ < 0.3 and mode != "skip" and A["internal"]:
+                # a rule offers exactly what a residue already carries (append / overwrite modes reach modified residues)
+                e_ = rnd.choice(A["internal"])
+                irules[0]["style"], irules[0]["cls"] = "letter", [A["seq"][e_["i"]]]
+                irules[0]["groups"][0] = _copy.deepcopy(e_["mods"])
+            evs.append(variable_event(pp, f"v{i}", A, irules, nrules, crules, rnd.choice([0, 1, 1, 2, 3, 4]), mode, rt, via,
+                                      shape))
         else:
-            evs.append(static_event(pp, f"s{i}", A, irules, nrules, crules, mode, rt, via))
+            evs.append(static_event(pp, f"s{i}", A, irules, nrules, crules, mode, rt, via, shape))
     evs = [e for e in evs if len(e.get("res", [])) <= 400 or e["k"] == "static"]
     res = core.validate_traces("Trace_ModBuilder", evs, "C13", min_per_shard=60)
     rep.add_trace("builders", evs, res,
@@ -162,10 +198,11 @@ def replay(path):
     import peptacular as pp
     warnings.simplefilter("ignore")
     if ev["k"] == "static":
-        new = [static_event(pp, "R.0", ev["A"], ev["irules"], ev["nrules"], ev["crules"], ev["mode"], ev["rt"], ev["via"])]
+        new = [static_event(pp, "R.0", ev["A"], ev["irules"], ev["nrules"], ev["crules"], ev["mode"], ev["rt"], ev["via"],
+                            ev.get("shape", "mods"))]
     else:
         new = [variable_event(pp, "R.0", ev["A"], ev["irules"], ev["nrules"], ev["crules"], ev["maxMods"], ev["mode"],
-                              ev["rt"], ev["via"])]
+                              ev["rt"], ev["via"], ev.get("shape", "mods"))]
     res = core.validate_traces("Trace_ModBuilder", new, "C13")
     rep = core.Report("C13", "quick", 0)
     rep.add_trace("replay", new, res)
